@@ -15,6 +15,7 @@ import (
 const preludeStd = `(declare-fun lower (B) B)
 (declare-fun upper (B) B)
 (declare-fun trim (B) B)
+(declare-fun repeat (B Int) B)
 (declare-fun lead (B) Int)
 (declare-fun trail (B) Int)
 (assert (forall ((x B)) (! (and (<= 0 (lead x)) (<= 0 (trail x)) (<= (+ (lead x) (trail x)) (blen x)) (= (trim x) (sub x (lead x) (- (blen x) (trail x))))) :pattern ((trim x)))))
@@ -66,6 +67,13 @@ func (f *frame) stdlib(i *ssa.Call, full string, args []T, st *State, pc string)
 		return nb("(lower " + v(0) + ")"), pc, true
 	case "strings.ToUpper":
 		return nb("(upper " + v(0) + ")"), pc, true
+	case "strings.Repeat":
+		// panics on a negative count; the result has count * len(s) bytes, blanks for s == " "
+		f.panicOb("stdlib", pc, "(>= "+args[1].S+" 0)", i.Pos(), "strings.Repeat: negative count")
+		r := g.s.def(i.Name(), T{"(repeat " + v(0) + " " + args[1].S + ")", "B"})
+		g.s.assumeUnder(pc, eq("(blen "+r.S+")", "(* (blen "+v(0)+") "+args[1].S+")"))
+		g.s.assumeUnder(pc, imp(eq(v(0), "(chr 32)"), eq(r.S, "(spaces "+args[1].S+")")))
+		return []T{{"(mk false " + r.S + ")", "NB"}}, pc, true
 	case "strings.TrimSpace":
 		// T-STD: removes lead(s) bytes of leading and trail(s) bytes of trailing white space
 		return nb("(trim " + v(0) + ")"), pc, true
